@@ -268,6 +268,24 @@ def r04_4(ctx):
     else:
         out.bad(fn.qname, "default node count does not cover the degree of the integrand for straight segments",
                 where=fn.where(), detail=f"nnodes - (a + b + 1) = {poly.show(slack)} can be negative")
+    # area of curved boundaries is documented as exact: integrand x y' has degree 2p - 1 for a degree-p segment;
+    # n open Newton-Cotes nodes are exact up to degree n - 1 (n when n is odd, by symmetry)
+    for pdeg in (1, 2, 3):
+        try:
+            cnt = expr_poly(dflt, {f"{cname}.degree": poly.const(pdeg), a: poly.const(1), b: poly.const(0)})
+        except Undecided:
+            break
+        if not poly.is_const(cnt):
+            out.undecided(fn.qname, f"node count for the area integrand is not a number: {poly.show(cnt)}", where=fn.where())
+            continue
+        n = int(poly.value(cnt))
+        exact = n if n % 2 else n - 1
+        need = 2 * pdeg - 1
+        if exact >= need:
+            out.ok(fn.qname, f"area integrand of a degree-{pdeg} segment (degree {need}): {n} nodes are exact", where=fn.where())
+        else:
+            out.bad(fn.qname, "default node count too small for the exact area of curved segments", where=fn.where(),
+                    detail=f"degree-{pdeg} segment: integrand x*y' has degree {need}, {n} nodes are exact only up to {exact}")
     return out
 
 
